@@ -95,7 +95,7 @@ class ResourceUsageReport:
         table.new_row()
         table.new_cell('DATE', RED)
         for k in resources:
-            name = k.name if k.name is not None else 'none'
+            name = str(k.name) if k.name is not None else 'none'
             table.new_cell(name.upper(), RED)
 
         d = min_date
